@@ -43,61 +43,723 @@ theorem pmod_pred (s n : Int) (h0 : 0 ≤ s) (hs : s < n) :
 
 /-! ### the walk of a search loop: position after `j` moves -/
 
-/-- `sel_i` after `j` moves from `orig` in direction `dir` (one lap = `n` moves) -/
+/-- number of moves since the search was last at `orig` (one lap = `n` moves) -/
+def lapOf (n j : Int) : Int := if j < n then j else if j < 2 * n then j - n else j - 2 * n
+
+theorem lapOf_spec (n j : Int) (hj : 0 ≤ j ∧ j ≤ 2 * n) :
+    (j < n ∧ lapOf n j = j) ∨ (n ≤ j ∧ j < 2 * n ∧ lapOf n j = j - n) ∨ (j = 2 * n ∧ lapOf n j = 0) := by
+  unfold lapOf
+  split_ifs <;> omega
+
+/-- `sel_i` after `j` moves from `orig` in direction `dir` -/
 def selOf (n dir orig j : Int) : Int :=
-  let t := if j < n then j else if j < 2 * n then j - n else j - 2 * n
-  if dir = 1 then (if orig + t < n then orig + t else orig + t - n)
-  else (if 0 ≤ orig - t then orig - t else orig - t + n)
+  if dir = 1 then (if orig + lapOf n j < n then orig + lapOf n j else orig + lapOf n j - n)
+  else (if 0 ≤ orig - lapOf n j then orig - lapOf n j else orig - lapOf n j + n)
 
 theorem selOf_range (n dir orig j : Int) (ho : 0 ≤ orig ∧ orig < n) (hj : 0 ≤ j ∧ j ≤ 2 * n) :
     0 ≤ selOf n dir orig j ∧ selOf n dir orig j < n := by
+  have h := lapOf_spec n j hj
   unfold selOf
-  simp only []
+  generalize lapOf n j = t at *
   split_ifs <;> omega
 
 theorem selOf_zero (n dir orig : Int) (ho : 0 ≤ orig ∧ orig < n) : selOf n dir orig 0 = orig := by
+  have h := lapOf_spec n 0 (by omega)
   unfold selOf
-  simp only []
+  generalize lapOf n 0 = t at *
   split_ifs <;> omega
 
 theorem selOf_step (n dir orig j : Int) (hd : dir = 1 ∨ dir = -1) (ho : 0 ≤ orig ∧ orig < n)
     (hj : 0 ≤ j ∧ j + 1 ≤ 2 * n) :
     pmod (selOf n dir orig j + dir) n = selOf n dir orig (j + 1) := by
   have hr := selOf_range n dir orig j ho ⟨hj.1, by omega⟩
+  have h1 := lapOf_spec n j ⟨hj.1, by omega⟩
+  have h2 := lapOf_spec n (j + 1) ⟨by omega, hj.2⟩
   rcases hd with hd | hd
   · subst hd
     rw [pmod_succ _ _ hr.1 hr.2]
     clear hr
-    unfold selOf
-    simp only []
+    simp only [selOf, if_true]
+    generalize lapOf n j = t at *
+    generalize lapOf n (j + 1) = t' at *
     split_ifs <;> omega
   · subst hd
     rw [pmod_pred _ _ hr.1 hr.2]
     clear hr
-    unfold selOf
-    simp only []
+    simp only [selOf, show ¬ ((-1 : Int) = 1) by decide, if_false]
+    generalize lapOf n j = t at *
+    generalize lapOf n (j + 1) = t' at *
     split_ifs <;> omega
 
 /-- the walk is back at `orig` exactly after one or two full laps -/
-theorem selOf_eq_orig (n dir orig j : Int) (hd : dir = 1 ∨ dir = -1) (ho : 0 ≤ orig ∧ orig < n)
+theorem selOf_eq_orig (n dir orig j : Int) (ho : 0 ≤ orig ∧ orig < n)
     (hj : 1 ≤ j ∧ j ≤ 2 * n) : selOf n dir orig j = orig ↔ (j = n ∨ j = 2 * n) := by
+  have h1 := lapOf_spec n j ⟨by omega, hj.2⟩
   unfold selOf
-  simp only []
-  rcases hd with hd | hd <;> subst hd <;> split_ifs <;> omega
+  generalize lapOf n j = t at *
+  split_ifs <;> omega
 
 /-- every index is visited in each lap -/
 theorem selOf_cover (n dir orig i : Int) (hd : dir = 1 ∨ dir = -1) (ho : 0 ≤ orig ∧ orig < n)
     (hi : 0 ≤ i ∧ i < n) : ∃ t, 0 ≤ t ∧ t < n ∧ selOf n dir orig t = i ∧ selOf n dir orig (t + n) = i := by
   rcases hd with hd | hd
   · subst hd
-    refine ⟨if orig ≤ i then i - orig else i - orig + n, ?_⟩
-    unfold selOf
-    simp only []
-    split_ifs <;> omega
+    have key : ∀ t, 0 ≤ t → t < n → (orig + t = i ∨ orig + t - n = i) →
+        selOf n 1 orig t = i ∧ selOf n 1 orig (t + n) = i := by
+      intro t h0 h1 h
+      have h1 := lapOf_spec n t ⟨by omega, by omega⟩
+      have h2 := lapOf_spec n (t + n) ⟨by omega, by omega⟩
+      simp only [selOf, if_true]
+      generalize lapOf n t = a at *
+      generalize lapOf n (t + n) = b at *
+      split_ifs <;> omega
+    by_cases hc : orig ≤ i
+    · exact ⟨i - orig, by omega, by omega, key _ (by omega) (by omega) (by omega)⟩
+    · exact ⟨i - orig + n, by omega, by omega, key _ (by omega) (by omega) (by omega)⟩
   · subst hd
-    refine ⟨if i ≤ orig then orig - i else orig - i + n, ?_⟩
-    unfold selOf
+    have key : ∀ t, 0 ≤ t → t < n → (orig - t = i ∨ orig - t + n = i) →
+        selOf n (-1) orig t = i ∧ selOf n (-1) orig (t + n) = i := by
+      intro t h0 h1 h
+      have h1 := lapOf_spec n t ⟨by omega, by omega⟩
+      have h2 := lapOf_spec n (t + n) ⟨by omega, by omega⟩
+      simp only [selOf, show ¬ ((-1 : Int) = 1) by decide, if_false]
+      generalize lapOf n t = a at *
+      generalize lapOf n (t + n) = b at *
+      split_ifs <;> omega
+    by_cases hc : i ≤ orig
+    · exact ⟨orig - i, by omega, by omega, key _ (by omega) (by omega) (by omega)⟩
+    · exact ⟨orig - i + n, by omega, by omega, key _ (by omega) (by omega) (by omega)⟩
+
+/-! ### phase 1: one cut -/
+
+/-- `r` arises from `items` by one guillotine cut: item `i` keeps `pos` of its size in dimension
+`d`, the remainder is appended -/
+def IsCut (items r : List PItem) : Prop :=
+  ∃ (i : Nat) (a : PItem) (d : Bool) (pos : Int), items[i]? = some a ∧ 0 < pos ∧ pos < a.size d ∧
+    r = items.set i (a.setSize d pos) ++ [a.second d pos (a.size d - pos)]
+
+theorem search1_spec {X} (num : Num X) (cutter : X) (n dir orig : Int) :
+    ∀ (fuel : Nat) (items : List PItem) (sel : Int) (d : Bool) (r : List PItem),
+      search1 num cutter n dir orig fuel items sel d = some r → IsCut items r := by
+  intro fuel
+  induction fuel with
+  | zero => intro items sel d r h; simp [search1] at h
+  | succ f ih =>
+    intro items sel d r h
+    unfold search1 at h
+    split at h
+    · simp at h
+    · split at h
+      · simp at h
+      · rename_i cur hcur
+        simp only [] at h
+        split at h
+        · rename_i hc
+          injection h with h
+          exact ⟨sel.toNat, cur, d, _, hcur, hc.2.1, hc.2.2, h.symm⟩
+        · exact ih _ _ _ _ h
+
+/-- the item at index `s` has size ≥ 2 in dimension `d` -/
+def Cuttable (items : List PItem) (s : Int) (d : Bool) : Prop :=
+  ∃ a, items[s.toNat]? = some a ∧ 2 ≤ a.size d
+
+theorem search1_none {X} (num : Num X) (cutter : X) (n dir orig : Int) (d0 : Bool) (items : List PItem)
+    (hn : (items.length : Int) = n) (hd : dir = 1 ∨ dir = -1) (ho : 0 ≤ orig ∧ orig < n) :
+    ∀ (fuel : Nat) (j : Int), 0 ≤ j → j + fuel = 2 * n →
+      search1 num cutter n dir orig fuel items (selOf n dir orig j) (if j < n then d0 else !d0) = none →
+      ∀ j', j ≤ j' → j' < 2 * n → ¬ Cuttable items (selOf n dir orig j') (if j' < n then d0 else !d0) := by
+  intro fuel
+  induction fuel with
+  | zero => intro j _ hj _ j' h1 h2; omega
+  | succ f ih =>
+    intro j hj0 hjf h j' hj' hj'2
+    have hr := selOf_range n dir orig j ho ⟨hj0, by omega⟩
+    have hlt : (selOf n dir orig j).toNat < items.length := by omega
+    obtain ⟨dj, hdj⟩ : ∃ dj, dj = (if j < n then d0 else !d0) := ⟨_, rfl⟩
+    rw [← hdj] at h
+    unfold search1 at h
+    rw [if_neg (by omega), List.getElem?_eq_getElem hlt] at h
+    simp only [] at h
+    split at h
+    · simp at h
+    · rename_i hc
+      -- the item at step `j` is not cuttable
+      have hnot : ¬ Cuttable items (selOf n dir orig j) (if j < n then d0 else !d0) := by
+        rw [← hdj]
+        intro ⟨a, ha, h2⟩
+        rw [List.getElem?_eq_getElem hlt] at ha
+        injection ha with ha
+        apply hc
+        rw [ha]
+        have := pmod_range (num.mulTrunc (a.size dj - 1) cutter) (a.size dj - 1) (by omega)
+        omega
+      by_cases hjj : j' = j
+      · rw [hjj]; exact hnot
+      · by_cases hlast : j + 1 = 2 * n
+        · omega
+        · rw [selOf_step n dir orig j hd ho ⟨hj0, by omega⟩] at h
+          have hflip : (if selOf n dir orig (j + 1) = orig then !dj
+              else dj) = (if j + 1 < n then d0 else !d0) := by
+            rw [hdj]
+            have := selOf_eq_orig n dir orig (j + 1) ho ⟨by omega, by omega⟩
+            by_cases h1 : j + 1 = n
+            · rw [if_pos (this.mpr (Or.inl h1)), if_pos (by omega), if_neg (by omega)]
+            · rw [if_neg (by intro hh; have := this.mp hh; omega)]
+              by_cases h2 : j < n
+              · rw [if_pos h2, if_pos (by omega)]
+              · rw [if_neg h2, if_neg (by omega)]
+          rw [hflip] at h
+          exact ih (j + 1) (by omega) (by omega) h j' (by omega) hj'2
+
+theorem search1_some {X} (num : Num X) (cutter : X) (n dir orig : Int) (d0 : Bool) (items : List PItem)
+    (hn : (items.length : Int) = n) (hd : dir = 1 ∨ dir = -1) (ho : 0 ≤ orig ∧ orig < n)
+    (hex : ∃ (i : Int) (d : Bool), 0 ≤ i ∧ i < n ∧ Cuttable items i d) :
+    ∃ r, search1 num cutter n dir orig (2 * n.toNat) items orig d0 = some r := by
+  cases hs : search1 num cutter n dir orig (2 * n.toNat) items orig d0 with
+  | some r => exact ⟨r, rfl⟩
+  | none =>
+    exfalso
+    obtain ⟨i, d, hi0, hi1, hcut⟩ := hex
+    have h0 := selOf_zero n dir orig ho
+    have hnone := search1_none num cutter n dir orig d0 items hn hd ho (2 * n.toNat) 0 (by omega)
+      (by omega) (by rw [h0, if_pos (by omega)]; exact hs)
+    obtain ⟨t, ht0, ht1, hs1, hs2⟩ := selOf_cover n dir orig i hd ho ⟨hi0, hi1⟩
+    by_cases hdd : d = d0
+    · have := hnone t ht0 (by omega)
+      rw [hs1, if_pos ht1, ← hdd] at this
+      exact this hcut
+    · have := hnone (t + n) (by omega) (by omega)
+      rw [hs2, if_neg (by omega)] at this
+      have hd' : (!d0) = d := by cases d <;> cases d0 <;> simp_all
+      rw [hd'] at this
+      exact this hcut
+
+/-! ### layouts are invariant under permutation; replacing one element -/
+
+theorem PItem.Apart.symm {a c : PItem} (h : a.Apart c) : c.Apart a := by
+  unfold PItem.Apart at *
+  intro hb
+  have := h hb.symm
+  omega
+
+theorem Layout.perm {W H k : Int} {l₁ l₂ : List PItem} (hp : l₁.Perm l₂) (h : Layout W H k l₁) :
+    Layout W H k l₂ := by
+  refine ⟨fun p hp' => h.inside p (hp.mem_iff.mpr hp'), ?_, ?_⟩
+  · exact (List.Perm.pairwise_iff (fun {x y} hxy => PItem.Apart.symm hxy) hp).mp h.apart
+  · intro j hj
+    obtain ⟨p, hp1, hp2⟩ := h.bins j hj
+    exact ⟨p, hp.mem_iff.mp hp1, hp2⟩
+
+theorem areaSum_perm {l₁ l₂ : List PItem} (hp : l₁.Perm l₂) : areaSum l₁ = areaSum l₂ :=
+  ListLemmas.sum_map_perm PItem.area hp
+
+theorem perm_getElem_cons_eraseIdx {α} (l : List α) (i : Nat) (a : α) (h : l[i]? = some a) :
+    l.Perm (a :: l.eraseIdx i) := by
+  have hi : i < l.length := by
+    by_contra hc
+    rw [List.getElem?_eq_none (by omega)] at h
+    simp at h
+  rw [List.getElem?_eq_getElem hi] at h
+  injection h with h
+  rw [List.eraseIdx_eq_take_drop_succ]
+  have hl : l.take i ++ a :: l.drop (i + 1) = l := by
+    rw [← h]
+    simp
+  have := @List.perm_middle _ a (l.take i) (l.drop (i + 1))
+  rwa [hl] at this
+
+theorem perm_set_cons_eraseIdx {α} (l : List α) (i : Nat) (b : α) (hi : i < l.length) :
+    (l.set i b).Perm (b :: l.eraseIdx i) := by
+  rw [List.set_eq_take_append_cons_drop, if_pos hi, List.eraseIdx_eq_take_drop_succ]
+  exact List.perm_middle
+
+/-- the list after a phase-1 cut, up to order -/
+theorem IsCut.perm {items r : List PItem} (h : IsCut items r) :
+    ∃ (a : PItem) (rest : List PItem) (d : Bool) (pos : Int), items.Perm (a :: rest) ∧ 0 < pos ∧ pos < a.size d ∧
+      r.Perm (a.setSize d pos :: a.second d pos (a.size d - pos) :: rest) := by
+  obtain ⟨i, a, d, pos, hi, h0, h1, hr⟩ := h
+  have hlt : i < items.length := by
+    by_contra hc
+    rw [List.getElem?_eq_none (by omega)] at hi
+    simp at hi
+  refine ⟨a, items.eraseIdx i, d, pos, perm_getElem_cons_eraseIdx items i a hi, h0, h1, ?_⟩
+  rw [hr]
+  have h2 := perm_set_cons_eraseIdx items i (a.setSize d pos) hlt
+  have h3 : (items.set i (a.setSize d pos) ++ [a.second d pos (a.size d - pos)]).Perm
+      ((a.setSize d pos :: items.eraseIdx i) ++ [a.second d pos (a.size d - pos)]) :=
+    List.Perm.append_right _ h2
+  refine h3.trans ?_
+  simp only [List.cons_append]
+  refine List.Perm.cons _ ?_
+  exact List.perm_append_comm
+
+theorem Layout.cut {W H k : Int} {a : PItem} {rest : List PItem} (d : Bool) (pos : Int)
+    (h : Layout W H k (a :: rest)) (h0 : 0 < pos) (h1 : pos < a.size d) :
+    Layout W H k (a.setSize d pos :: a.second d pos (a.size d - pos) :: rest) := by
+  have ha := h.inside a (by simp)
+  have hap := List.pairwise_cons.mp h.apart
+  refine ⟨?_, ?_, ?_⟩
+  · intro p hp
+    simp only [List.mem_cons] at hp
+    rcases hp with hp | hp | hp
+    · subst hp
+      unfold PItem.Inside PItem.setSize PItem.size at *
+      cases d <;> simp_all <;> omega
+    · subst hp
+      unfold PItem.Inside PItem.second PItem.size at *
+      cases d <;> simp_all <;> omega
+    · exact h.inside p (by simp [hp])
+  · refine List.pairwise_cons.mpr ⟨?_, List.pairwise_cons.mpr ⟨?_, hap.2⟩⟩
+    · intro c hc
+      simp only [List.mem_cons] at hc
+      rcases hc with hc | hc
+      · subst hc
+        unfold PItem.Apart PItem.setSize PItem.second PItem.size at *
+        cases d <;> simp_all <;> omega
+      · have hac := hap.1 c hc
+        intro hb
+        have := hac (by cases d <;> simpa [PItem.setSize] using hb)
+        unfold PItem.setSize PItem.size PItem.Inside at *
+        cases d <;> simp_all <;> omega
+    · intro c hc
+      have hac := hap.1 c hc
+      intro hb
+      have := hac (by cases d <;> simpa [PItem.second] using hb)
+      unfold PItem.second PItem.size PItem.Inside at *
+      cases d <;> simp_all <;> omega
+  · intro j hj
+    obtain ⟨p, hp1, hp2⟩ := h.bins j hj
+    simp only [List.mem_cons] at hp1
+    rcases hp1 with hp1 | hp1
+    · subst hp1
+      refine ⟨p.setSize d pos, by simp, ?_⟩
+      unfold PItem.setSize
+      cases d <;> simpa using hp2
+    · exact ⟨p, by simp [hp1], hp2⟩
+
+theorem Layout.shrink {W H k : Int} {a : PItem} {rest : List PItem} (d : Bool) (pos : Int)
+    (h : Layout W H k (a :: rest)) (h0 : 0 < pos) (h1 : pos < a.size d) :
+    Layout W H k (a.setSize d (a.size d - pos) :: rest) := by
+  have ha := h.inside a (by simp)
+  have hap := List.pairwise_cons.mp h.apart
+  refine ⟨?_, ?_, ?_⟩
+  · intro p hp
+    simp only [List.mem_cons] at hp
+    rcases hp with hp | hp
+    · subst hp
+      unfold PItem.Inside PItem.setSize PItem.size at *
+      cases d <;> simp_all <;> omega
+    · exact h.inside p (by simp [hp])
+  · refine List.pairwise_cons.mpr ⟨?_, hap.2⟩
+    intro c hc
+    have hac := hap.1 c hc
+    intro hb
+    have := hac (by cases d <;> simpa [PItem.setSize] using hb)
+    unfold PItem.setSize PItem.size PItem.Inside at *
+    cases d <;> simp_all <;> omega
+  · intro j hj
+    obtain ⟨p, hp1, hp2⟩ := h.bins j hj
+    simp only [List.mem_cons] at hp1
+    rcases hp1 with hp1 | hp1
+    · subst hp1
+      refine ⟨p.setSize d (p.size d - pos), by simp, ?_⟩
+      unfold PItem.setSize
+      cases d <;> simpa using hp2
+    · exact ⟨p, by simp [hp1], hp2⟩
+
+theorem area_cut (a : PItem) (d : Bool) (pos : Int) :
+    (a.setSize d pos).area + (a.second d pos (a.size d - pos)).area = a.area := by
+  unfold PItem.area PItem.setSize PItem.second PItem.size
+  cases d <;> simp <;> ring
+
+theorem area_shrink (a : PItem) (d : Bool) (pos : Int) :
+    (a.setSize d (a.size d - pos)).area = a.area - pos * a.size (!d) := by
+  unfold PItem.area PItem.setSize PItem.size
+  cases d <;> simp <;> ring
+
+/-- a phase-1 cut keeps the layout and the total area and adds one item -/
+theorem IsCut.keeps {W H k : Int} {items r : List PItem} (hc : IsCut items r) (h : Layout W H k items) :
+    Layout W H k r ∧ areaSum r = areaSum items ∧ r.length = items.length + 1 := by
+  obtain ⟨a, rest, d, pos, hp, h0, h1, hr⟩ := hc.perm
+  refine ⟨Layout.perm hr.symm (Layout.cut d pos (Layout.perm hp h) h0 h1), ?_, ?_⟩
+  · rw [areaSum_perm hr, areaSum_perm hp]
+    unfold areaSum
+    simp only [List.map_cons, List.sum_cons]
+    have := area_cut a d pos
+    omega
+  · rw [hr.length_eq, hp.length_eq]
+    simp
+
+/-! ### phase 1 -/
+
+theorem exists_big_item (items : List PItem) (h : (items.length : Int) < areaSum items) :
+    ∃ p ∈ items, 2 ≤ p.area := by
+  induction items with
+  | nil => simp [areaSum] at h
+  | cons a t ih =>
+    by_cases ha : 2 ≤ a.area
+    · exact ⟨a, by simp, ha⟩
+    · have : (t.length : Int) < areaSum t := by
+        unfold areaSum at *
+        simp only [List.map_cons, List.sum_cons, List.length_cons] at h
+        push_cast at h
+        omega
+      obtain ⟨p, hp, h2⟩ := ih this
+      exact ⟨p, by simp [hp], h2⟩
+
+/-- "it must always be possible to split at least one item in at least one direction":
+more area than items means some item has a side of length ≥ 2 -/
+theorem exists_cuttable (items : List PItem) (hpos : ∀ p ∈ items, 1 ≤ p.w ∧ 1 ≤ p.h)
+    (h : (items.length : Int) < areaSum items) :
+    ∃ (i : Int) (d : Bool), 0 ≤ i ∧ i < items.length ∧ Cuttable items i d := by
+  obtain ⟨p, hp, h2⟩ := exists_big_item items h
+  obtain ⟨i, hi⟩ := List.mem_iff_getElem?.mp hp
+  have hlt : i < items.length := by
+    by_contra hc
+    rw [List.getElem?_eq_none (by omega)] at hi
+    simp at hi
+  have hwh := hpos p hp
+  have : 2 ≤ p.w ∨ 2 ≤ p.h := by
+    by_contra hc
+    have h1 : p.w = 1 := by omega
+    have h3 : p.h = 1 := by omega
+    unfold PItem.area at h2
+    rw [h1, h3] at h2
+    omega
+  rcases this with hw | hh
+  · exact ⟨i, false, by omega, by omega, p, by simpa using hi, by simpa [PItem.size] using hw⟩
+  · exact ⟨i, true, by omega, by omega, p, by simpa using hi, by simpa [PItem.size] using hh⟩
+
+/-- invariant of phase 1: `cur_n_items == len(items)`, the items tile the `min_bins` bins -/
+structure P1 (sp : Space) (items : List PItem) (cur : Int) : Prop where
+  len : (items.length : Int) = cur
+  lay : Layout sp.W sp.H sp.minBins items
+  area : areaSum items = sp.minBins * (sp.W * sp.H)
+
+theorem phase1_ok {X} (num : Num X) (sp : Space) (hs : SpaceOk sp) :
+    ∀ (steps : Nat) (cur : Int) (x : List X) (items : List PItem),
+      cur + steps = sp.nItems → 2 * steps ≤ x.length → P1 sp items cur → 1 ≤ cur →
+      ∃ items', phase1 num steps cur x items = some (items', x.drop (2 * steps)) ∧
+        P1 sp items' sp.nItems := by
+  intro steps
+  induction steps with
+  | zero =>
+    intro cur x items hc _ hP _
+    refine ⟨items, by simp [phase1], ?_⟩
+    have : cur = sp.nItems := by omega
+    exact this ▸ hP
+  | succ st ih =>
+    intro cur x items hc hx hP h1
+    match x, hx with
+    | selector :: cutter :: xs, hx =>
+      unfold phase1
+      simp only []
+      have hsel := pmod_range (num.mulTrunc cur selector) cur (by omega)
+      have hdir : (if num.isNeg selector = true then (-1 : Int) else 1) = 1 ∨
+          (if num.isNeg selector = true then (-1 : Int) else 1) = -1 := by
+        split <;> simp
+      have hex := exists_cuttable items (fun p hp => by
+        have := hP.lay.inside p hp
+        exact ⟨this.1, this.2.1⟩) (by
+          rw [hP.area, hP.len]
+          have := hs.nA
+          omega)
+      rw [hP.len] at hex
+      obtain ⟨r, hr⟩ := search1_some num cutter cur _ _ (num.isNonneg cutter) items hP.len hdir hsel hex
+      rw [hr]
+      have hcut := search1_spec _ _ _ _ _ _ _ _ _ _ hr
+      obtain ⟨hl, ha, hlen⟩ := hcut.keeps hP.lay
+      have hP' : P1 sp r (cur + 1) := ⟨by rw [hlen]; push_cast; rw [hP.len], hl, by rw [ha, hP.area]⟩
+      obtain ⟨items', h1', h2'⟩ := ih (cur + 1) xs r (by push_cast at hc; omega)
+        (by simp at hx; omega) hP' (by omega)
+      refine ⟨items', ?_, h2'⟩
+      simp only []
+      rw [h1']
+      have : 2 * (st + 1) = 2 * st + 1 + 1 := by omega
+      rw [this, List.drop_succ_cons, List.drop_succ_cons]
+    | [], hx => simp at hx
+    | [_], hx => simp at hx; omega
+
+theorem areaSum_initItems (W H : Int) (k : Nat) : areaSum (initItems W H k) = k * (W * H) := by
+  unfold areaSum initItems
+  rw [List.map_map]
+  have : ∀ l : List Nat, ((l.map ((PItem.area) ∘ fun (j : Nat) => (⟨W, H, (j : Int) + 1, 0, 0⟩ : PItem))).sum
+      = (l.length : Int) * (W * H)) := by
+    intro l
+    induction l with
+    | nil => simp
+    | cons a t ih =>
+      simp only [List.map_cons, List.sum_cons, List.length_cons, ih]
+      simp only [Function.comp, PItem.area]
+      push_cast
+      ring
+  rw [this, List.length_range]
+
+theorem layout_initItems (W H : Int) (k : Nat) (hW : 1 ≤ W) (hH : 1 ≤ H) :
+    Layout W H k (initItems W H k) := by
+  unfold initItems
+  refine ⟨?_, ?_, ?_⟩
+  · intro p hp
+    obtain ⟨j, hj, rfl⟩ := List.mem_map.mp hp
+    have := List.mem_range.mp hj
+    unfold PItem.Inside
     simp only []
-    split_ifs <;> omega
+    omega
+  · rw [List.pairwise_map]
+    refine List.Pairwise.imp ?_ List.pairwise_lt_range
+    intro a b hab
+    unfold PItem.Apart
+    simp only []
+    intro h
+    omega
+  · intro j hj
+    refine ⟨⟨W, H, (j : Int) + 1, 0, 0⟩, List.mem_map.mpr ⟨j, List.mem_range.mpr (by omega), rfl⟩, rfl⟩
+
+/-! ### phase 2: one slack cut -/
+
+/-- outcome of one phase-2 step: nothing happened, or item `i` lost `pos` of its size in
+dimension `d` and the area account follows, staying at or above `minArea` -/
+def IsShrink (minArea : Int) (items : List PItem) (area : Int) (r : List PItem) (area' : Int) : Prop :=
+  (r = items ∧ area' = area) ∨
+  ∃ (i : Nat) (a : PItem) (d : Bool) (pos : Int), items[i]? = some a ∧ 0 < pos ∧ pos < a.size d ∧
+    minArea ≤ area - pos * a.size (!d) ∧
+    r = items.set i (a.setSize d (a.size d - pos)) ∧ area' = area - pos * a.size (!d)
+
+theorem search2_spec {X} (num : Num X) (cutter : X) (n dir orig minArea : Int) :
+    ∀ (fuel : Nat) (items : List PItem) (area sel : Int) (d : Bool) (step : Nat) (r : List PItem) (area' : Int),
+      (∀ p ∈ items, 1 ≤ p.w ∧ 1 ≤ p.h) →
+      search2 num cutter n dir orig minArea fuel items area sel d step = some (r, area') →
+      IsShrink minArea items area r area' := by
+  intro fuel
+  induction fuel with
+  | zero => intro items area sel d step r area' _ h; simp [search2] at h
+  | succ f ih =>
+    intro items area sel d step r area' hpos h
+    unfold search2 at h
+    split at h
+    · split at h
+      · simp at h
+      · split at h
+        · simp at h
+        · rename_i cur hcur
+          simp only [] at h
+          split at h
+          · simp at h
+          · rename_i hother
+            split at h
+            · rename_i hc
+              injection h with h
+              injection h with h1 h2
+              have hmem : cur ∈ items := List.mem_of_getElem? hcur
+              have ho1 : 1 ≤ cur.size (!d) := by
+                have := hpos cur hmem
+                unfold PItem.size
+                cases d <;> simp <;> omega
+              obtain ⟨hm, hp0, hp1⟩ := hc
+              have hpm := pmod_range (num.mulTrunc (min ((area - minArea) / cur.size (!d)) (cur.size d) - 1) cutter)
+                (min ((area - minArea) / cur.size (!d)) (cur.size d) - 1) hm
+              refine Or.inr ⟨sel.toNat, cur, d, _, hcur, hp0, hp1, ?_, h1.symm, h2.symm⟩
+              have hle : pmod (num.mulTrunc (min ((area - minArea) / cur.size (!d)) (cur.size d) - 1) cutter)
+                (min ((area - minArea) / cur.size (!d)) (cur.size d) - 1) + 1
+                  ≤ min ((area - minArea) / cur.size (!d)) (cur.size d) - 1 := by omega
+              clear hpm
+              generalize pmod (num.mulTrunc (min ((area - minArea) / cur.size (!d)) (cur.size d) - 1) cutter)
+                (min ((area - minArea) / cur.size (!d)) (cur.size d) - 1) + 1 = pos at *
+              have hq : pos + 1 ≤ (area - minArea) / cur.size (!d) := by omega
+              have h3 := Int.ediv_mul_le (area - minArea) (b := cur.size (!d)) (by omega)
+              have h4 : (pos + 1) * cur.size (!d) ≤ (area - minArea) / cur.size (!d) * cur.size (!d) :=
+                Int.mul_le_mul_of_nonneg_right hq (by omega)
+              have h5 : (pos + 1) * cur.size (!d) = pos * cur.size (!d) + cur.size (!d) := by ring
+              omega
+            · split at h
+              · exact ih _ _ _ _ _ _ _ hpos h
+              · exact ih _ _ _ _ _ _ _ hpos h
+    · injection h with h
+      injection h with h1 h2
+      exact Or.inl ⟨h1.symm, h2.symm⟩
+
+theorem search2_some {X} (num : Num X) (cutter : X) (n dir orig minArea : Int) (d0 : Bool)
+    (items : List PItem) (area : Int)
+    (hn : (items.length : Int) = n) (hd : dir = 1 ∨ dir = -1) (ho : 0 ≤ orig ∧ orig < n)
+    (hpos : ∀ p ∈ items, 1 ≤ p.w ∧ 1 ≤ p.h) :
+    ∀ (fuel : Nat) (j : Int), 0 ≤ j → j ≤ 2 * n → 2 * n - j + 1 ≤ fuel →
+      ∃ res, search2 num cutter n dir orig minArea fuel items area (selOf n dir orig j)
+        (if j < n then d0 else if j < 2 * n then !d0 else d0)
+        (if j < n then 0 else if j < 2 * n then 1 else 2) = some res := by
+  intro fuel
+  induction fuel with
+  | zero => intro j h0 h1 h2; omega
+  | succ f ih =>
+    intro j h0 h1 h2
+    obtain ⟨dj, hdj⟩ : ∃ dj, dj = (if j < n then d0 else if j < 2 * n then !d0 else d0) := ⟨_, rfl⟩
+    obtain ⟨sj, hsj⟩ : ∃ sj : Nat, sj = (if j < n then 0 else if j < 2 * n then 1 else 2) := ⟨_, rfl⟩
+    rw [← hdj, ← hsj]
+    unfold search2
+    by_cases hlast : j = 2 * n
+    · have : ¬ sj < 2 := by rw [hsj, if_neg (by omega), if_neg (by omega)]; omega
+      rw [if_neg this]
+      exact ⟨_, rfl⟩
+    · have hs2 : sj < 2 := by rw [hsj]; split_ifs <;> omega
+      have hr := selOf_range n dir orig j ho ⟨h0, h1⟩
+      have hlt : (selOf n dir orig j).toNat < items.length := by omega
+      rw [if_pos hs2, if_neg (by omega), List.getElem?_eq_getElem hlt]
+      simp only []
+      have ho1 : ¬ (items[(selOf n dir orig j).toNat].size (!dj) = 0) := by
+        have := hpos _ (List.getElem_mem hlt)
+        unfold PItem.size
+        cases dj <;> simp <;> omega
+      rw [if_neg ho1]
+      split
+      · exact ⟨_, rfl⟩
+      · rw [selOf_step n dir orig j hd ho ⟨h0, by omega⟩]
+        have horig := selOf_eq_orig n dir orig (j + 1) ho ⟨by omega, by omega⟩
+        have hih := ih (j + 1) (by omega) (by omega) (by omega)
+        by_cases hback : j + 1 = n ∨ j + 1 = 2 * n
+        · rw [if_pos (horig.mpr hback)]
+          have e1 : (!dj) = (if j + 1 < n then d0 else if j + 1 < 2 * n then !d0 else d0) := by
+            rw [hdj]
+            rcases hback with hb | hb
+            · rw [if_pos (by omega), if_neg (by omega), if_pos (by omega)]
+            · rw [if_neg (by omega), if_pos (by omega), if_neg (by omega), if_neg (by omega)]
+              simp
+          have e2 : sj + 1 = (if j + 1 < n then 0 else if j + 1 < 2 * n then 1 else 2) := by
+            rw [hsj]
+            rcases hback with hb | hb
+            · rw [if_pos (by omega), if_neg (by omega), if_pos (by omega)]
+            · rw [if_neg (by omega), if_pos (by omega), if_neg (by omega), if_neg (by omega)]
+          rw [e1, e2]
+          exact hih
+        · rw [if_neg (by intro hh; exact hback (horig.mp hh))]
+          have e1 : dj = (if j + 1 < n then d0 else if j + 1 < 2 * n then !d0 else d0) := by
+            rw [hdj]
+            split_ifs <;> first | rfl | omega
+          have e2 : sj = (if j + 1 < n then 0 else if j + 1 < 2 * n then 1 else 2) := by
+            rw [hsj]
+            split_ifs <;> first | rfl | omega
+          rw [← e1, ← e2] at hih
+          exact hih
+
+/-! ### phase 2 -/
+
+/-- invariant of phase 2: the count stays, the layout stays feasible, `current_area` is the
+true total area and never drops below `min_area` -/
+structure P2 (sp : Space) (n minArea : Int) (items : List PItem) (area : Int) : Prop where
+  len : (items.length : Int) = n
+  lay : Layout sp.W sp.H sp.minBins items
+  acct : areaSum items = area
+  ge : minArea ≤ area
+
+theorem IsShrink.keeps {sp : Space} {n minArea area area' : Int} {items r : List PItem}
+    (hc : IsShrink minArea items area r area') (h : P2 sp n minArea items area) :
+    P2 sp n minArea r area' ∧ area' ≤ area := by
+  rcases hc with ⟨h1, h2⟩ | ⟨i, a, d, pos, hi, h0, h1, hge, hr, ha⟩
+  · subst h1 h2
+    exact ⟨h, by omega⟩
+  · have hlt : i < items.length := by
+      by_contra hc
+      rw [List.getElem?_eq_none (by omega)] at hi
+      simp at hi
+    have hp1 := perm_getElem_cons_eraseIdx items i a hi
+    have hp2 := perm_set_cons_eraseIdx items i (a.setSize d (a.size d - pos)) hlt
+    have hmem : a ∈ items := List.mem_of_getElem? hi
+    have hother : 1 ≤ a.size (!d) := by
+      have := h.lay.inside a hmem
+      unfold PItem.Inside at this
+      unfold PItem.size
+      cases d <;> simp <;> omega
+    refine ⟨⟨?_, ?_, ?_, ?_⟩, ?_⟩
+    · rw [hr, List.length_set]; exact h.len
+    · rw [hr]
+      exact Layout.perm hp2.symm (Layout.shrink d pos (Layout.perm hp1 h.lay) h0 h1)
+    · rw [hr, areaSum_perm hp2, ha, ← h.acct, areaSum_perm hp1]
+      unfold areaSum
+      simp only [List.map_cons, List.sum_cons]
+      rw [area_shrink]
+      omega
+    · rw [ha]; exact hge
+    · rw [ha]
+      have : 0 ≤ pos * a.size (!d) := Int.mul_nonneg (by omega) (by omega)
+      omega
+
+theorem phase2_ok {X} (num : Num X) (sp : Space) (n minArea : Int) (hn : 1 ≤ n) :
+    ∀ (m : Nat) (x : List X) (items : List PItem) (area : Int), x.length = 2 * m →
+      P2 sp n minArea items area →
+      ∃ r area', phase2 num n minArea x items area = some r ∧ P2 sp n minArea r area' ∧ area' ≤ area := by
+  intro m
+  induction m with
+  | zero =>
+    intro x items area hx hP
+    have : x = [] := List.eq_nil_of_length_eq_zero (by omega)
+    subst this
+    exact ⟨items, area, by simp [phase2], hP, by omega⟩
+  | succ m ih =>
+    intro x items area hx hP
+    match x, hx with
+    | selector :: cutter :: xs, hx =>
+      unfold phase2
+      by_cases hgt : area > minArea
+      · rw [if_pos hgt]
+        simp only []
+        have hsel := pmod_range (num.mulTrunc n selector) n (by omega)
+        have hdir : (if num.isNeg selector = true then (-1 : Int) else 1) = 1 ∨
+            (if num.isNeg selector = true then (-1 : Int) else 1) = -1 := by
+          split <;> simp
+        have hpos : ∀ p ∈ items, 1 ≤ p.w ∧ 1 ≤ p.h := fun p hp => by
+          have := hP.lay.inside p hp
+          exact ⟨this.1, this.2.1⟩
+        have hn0 : (0 : Int) < n := by omega
+        obtain ⟨res, hres⟩ := search2_some num cutter n (if num.isNeg selector = true then (-1 : Int) else 1)
+          (pmod (num.mulTrunc n selector) n) minArea
+          (num.isNonneg cutter) items area hP.len hdir hsel hpos (2 * n.toNat + 1) 0 (by omega) (by omega)
+          (by push_cast; omega)
+        rw [selOf_zero n _ _ hsel] at hres
+        simp only [hn0, if_true] at hres
+        rw [hres]
+        obtain ⟨r, a'⟩ := res
+        have hsp := search2_spec _ _ _ _ _ _ _ _ _ _ _ _ _ _ hpos hres
+        obtain ⟨hP', hle⟩ := hsp.keeps hP
+        obtain ⟨r2, a2, h1, h2, h3⟩ := ih xs r a' (by simp at hx; omega) hP'
+        exact ⟨r2, a2, h1, h2, by omega⟩
+      · rw [if_neg hgt]
+        exact ⟨items, area, rfl, hP, by omega⟩
+    | [], hx => simp at hx
+    | [_], hx => simp at hx; omega
+
+/-! ### both phases -/
+
+theorem decodeItems_ok {X} (num : Num X) (sp : Space) (hs : SpaceOk sp) (x : List X) (j : Nat)
+    (hx : (x.length : Int) = 2 * (sp.nItems - sp.minBins) + 2 * j) :
+    ∃ items, decodeItems num sp x = some items ∧ (items.length : Int) = sp.nItems ∧
+      Layout sp.W sp.H sp.minBins items ∧
+      (sp.minBins - 1) * (sp.W * sp.H) < areaSum items ∧ areaSum items ≤ sp.minBins * (sp.W * sp.H) := by
+  have hk := hs.k1
+  have hkn := hs.kn
+  have hinit : P1 sp (initItems sp.W sp.H sp.minBins.toNat) sp.minBins := by
+    refine ⟨?_, ?_, ?_⟩
+    · simp [initItems]; omega
+    · have := layout_initItems sp.W sp.H sp.minBins.toNat hs.W1 hs.H1
+      rwa [Int.toNat_of_nonneg (by omega)] at this
+    · rw [areaSum_initItems, Int.toNat_of_nonneg (by omega)]
+  obtain ⟨items1, h1, hP1⟩ := phase1_ok num sp hs (sp.nItems - sp.minBins).toNat sp.minBins x _
+    (by omega) (by omega) hinit hk
+  unfold decodeItems
+  rw [h1]
+  simp only []
+  have hP2 : P2 sp (items1.length : Int) (sp.minBins * (sp.W * sp.H) - sp.W * sp.H + 1) items1
+      (sp.minBins * (sp.W * sp.H)) := by
+    refine ⟨rfl, hP1.lay, hP1.area, ?_⟩
+    have : 1 ≤ sp.W * sp.H := by
+      have := Int.mul_le_mul hs.W1 hs.H1 (by omega) (by have := hs.W1; omega)
+      omega
+    omega
+  have hlen : (x.drop (2 * (sp.nItems - sp.minBins).toNat)).length = 2 * j := by
+    rw [List.length_drop]; omega
+  obtain ⟨r, a', h2, hP2', hle⟩ := phase2_ok num sp (items1.length : Int) _ (by rw [hP1.len]; omega) j _ _ _ hlen hP2
+  refine ⟨r, h2, by rw [hP2'.len, hP1.len], hP2'.lay, ?_, ?_⟩
+  · have := hP2'.ge
+    rw [hP2'.acct]
+    have e : (sp.minBins - 1) * (sp.W * sp.H) = sp.minBins * (sp.W * sp.H) - sp.W * sp.H := by ring
+    omega
+  · rw [hP2'.acct]; exact hle
 
 end InstGen
